@@ -5,17 +5,21 @@
    single zip / folder of zips with arbitrary well-formed content), every initial file system
    that is `fresh` (nothing at dst, temporary sibling name unused) or `manual` (dst exists without
    a start marker), every history = any number of invocations killed after an arbitrary number of
-   operations (or stopped by an OSError) followed by one that returns, every directory-scan order
-   (the oracle of rmtree / delete_folder_content) that lists entries below dst and misses none. *)
+   operations -- between two of them or inside a write after an arbitrary number of bytes (a_torn) --
+   (or stopped by an OSError) followed by one that returns, every directory-scan order
+   (the oracle of rmtree / delete_folder_content) that lists entries below dst and -- for a call that gets as far
+   as the end marker -- misses none, every num_workers and every schedule of the unzip workers (the oracle
+   `sched` of Model.interleave). *)
 From Coq Require Import List String Bool Arith ZArith.
 Import ListNotations.
+From Coq Require Import Permutation.
 From KD Require Import C20.Model C20.Spec C20.Check C20.Proofs.
 
 (* headline: whenever a call returns, dst is a complete copy -- or it was the user's folder and is untouched *)
-Theorem crash_safe : forall c h order s0 s' r evs,
+Theorem crash_safe : forall c h order sched s0 s' r evs,
     src_ok c = true -> (fresh c s0 \/ manual c s0) ->
     attempts_ok c h s0 -> order_in_dst c order -> order_covers c (after_crashes true true c h s0) order ->
-    history_run true true c h order s0 = Some (s', r, evs) ->
+    history_run true true c h order sched s0 = Some (s', r, evs) ->
     (fresh c s0 /\ complete_copy c s') \/ (manual c s0 /\ s' = s0).
 Proof. exact crash_safe_l. Qed.
 Print Assumptions crash_safe.
@@ -32,9 +36,9 @@ Proof. exact fresh_auto. Qed.
 Print Assumptions fresh_is_auto_state.
 
 (* a call that returns from any state automatic copying can be in leaves exactly source + markers *)
-Theorem complete_call_yields_copy : forall c order s s' r evs,
+Theorem complete_call_yields_copy : forall c order sched s s' r evs,
     src_ok c = true -> auto_state c s -> order_in_dst c order -> order_covers c s order ->
-    invoke true true c order s = Some (s', r, evs) ->
+    invoke true true c order sched s = Some (s', r, evs) ->
     complete_copy c s' /\
     (was_copied r = true ->
      lookup s' (smark c) = Some (File start_text) /\ lookup s' (emark c) = Some (File end_text)).
@@ -42,8 +46,8 @@ Proof. exact complete_call_yields_copy_l. Qed.
 Print Assumptions complete_call_yields_copy.
 
 (* a folder without start marker is never touched, by killed invocations or by the one that returns *)
-Theorem manual_folder_untouched : forall c h order s0 s' r evs,
-    manual c s0 -> history_run true true c h order s0 = Some (s', r, evs) ->
+Theorem manual_folder_untouched : forall c h order sched s0 s' r evs,
+    manual c s0 -> history_run true true c h order sched s0 = Some (s', r, evs) ->
     s' = s0 /\ r = nothing_done /\ evs = [].
 Proof. exact manual_untouched. Qed.
 Print Assumptions manual_folder_untouched.
@@ -53,25 +57,25 @@ Proof. exact manual_crashes. Qed.
 Print Assumptions manual_folder_untouched_by_killed_calls.
 
 (* once a call has returned, no later history makes a single system call *)
-Theorem completed_copy_never_redone : forall c h order s0 s' r evs,
+Theorem completed_copy_never_redone : forall c h order sched s0 s' r evs,
     src_ok c = true -> fresh c s0 ->
     attempts_ok c h s0 -> order_in_dst c order -> order_covers c (after_crashes true true c h s0) order ->
-    history_run true true c h order s0 = Some (s', r, evs) ->
-    forall h2 order2, history_run true true c h2 order2 s' = Some (s', nothing_done, []).
+    history_run true true c h order sched s0 = Some (s', r, evs) ->
+    forall h2 order2 sched2, history_run true true c h2 order2 sched2 s' = Some (s', nothing_done, []).
 Proof. exact completed_copy_never_redone_l. Qed.
 Print Assumptions completed_copy_never_redone.
 
 Theorem both_markers_mean_no_operation : forall c s, src_exists c = true ->
     lookup s (dst c) <> None -> lookup s (smark c) <> None -> lookup s (emark c) <> None ->
-    (forall order, invoke true true c order s = Some (s, nothing_done, [])) /\
+    (forall order sched, invoke true true c order sched s = Some (s, nothing_done, [])) /\
     (forall h, after_crashes true true c h s = s).
 Proof. exact done_never_redone. Qed.
 Print Assumptions both_markers_mean_no_operation.
 
 (* the returned record says what was done *)
-Theorem result_truthful : forall c order s s' r evs,
+Theorem result_truthful : forall c order sched s s' r evs,
     src_ok c = true -> auto_state c s -> order_in_dst c order -> order_covers c s order ->
-    invoke true true c order s = Some (s', r, evs) ->
+    invoke true true c order sched s = Some (s', r, evs) ->
     (was_copied r = true /\ source_format r = Some (format_of c) /\ evs <> [] /\
      complete_copy c s' /\ lookup s (emark c) = None /\
      (was_deleted r = true <-> lookup s (dst c) <> None))
@@ -81,9 +85,9 @@ Print Assumptions result_truthful.
 
 (* whatever existed outside the destination and its temporary sibling keeps its content through any history
    (missing parent directories of the destination may be created, nothing else) *)
-Theorem other_files_untouched : forall c h order s0 s' r evs,
+Theorem other_files_untouched : forall c h order sched s0 s' r evs,
     src_ok c = true -> auto_state c s0 -> attempts_ok c h s0 -> order_in_dst c order ->
-    history_run true true c h order s0 = Some (s', r, evs) ->
+    history_run true true c h order sched s0 = Some (s', r, evs) ->
     forall x, under (dst c) x = false -> under (tmp c) x = false -> lookup s0 x <> None ->
               lookup s' x = lookup s0 x.
 Proof. exact other_files_untouched_l. Qed.
@@ -102,13 +106,104 @@ Theorem complete_copyb_sound : forall c s, src_ok c = true -> complete_copyb c s
 Proof. exact complete_copyb_sound_l. Qed.
 Print Assumptions complete_copyb_sound.
 
+
+(* ---------------------------------------------------------------------- *)
+(* THE PARALLEL EXTRACTION OF A FOLDER OF ZIPS (num_workers >= 2)          *)
+(* ---------------------------------------------------------------------- *)
+(* run_unzip_jobs: the tasks handed to the workers are, together and in order, the whole list of zips -- for every
+   number of zips and every num_workers (no zip is dropped or extracted twice) *)
+Theorem unzip_jobs_cover_all_zips : forall (A : Type) (workers : nat) (zs : list A),
+    List.concat (unzip_jobs workers zs) = zs.
+Proof. exact unzip_jobs_concat. Qed.
+Print Assumptions unzip_jobs_cover_all_zips.
+
+(* whatever the schedule oracle does, every member of every job is extracted exactly once *)
+Theorem any_schedule_runs_every_job_once : forall (A : Type) (sched : list nat) (jobs : list (list A)),
+    Permutation (interleave sched jobs) (List.concat jobs).
+Proof. exact interleave_perm. Qed.
+Print Assumptions any_schedule_runs_every_job_once.
+
+(* hence the members extracted by one call are a permutation of the members of the archives, and the entries it
+   writes a permutation of the canonical walk over the source (which copy_walk_is_the_source ties to the source) *)
+Theorem parallel_extraction_is_a_permutation : forall c sched items,
+    Permutation (scheduled_members c sched items) (all_members c items).
+Proof. exact scheduled_members_perm. Qed.
+Print Assumptions parallel_extraction_is_a_permutation.
+
+Theorem copy_entries_permute_the_walk : forall c sched, Permutation (copy_entries c sched) (src_entries c).
+Proof. exact copy_entries_perm. Qed.
+Print Assumptions copy_entries_permute_the_walk.
+
+(* with num_workers <= 1 the schedule is irrelevant: the archives are extracted one after the other in listing order *)
+Theorem sequential_extraction_ignores_schedule : forall c sched items, c_workers c <= 1 ->
+    scheduled_members c sched items = all_members c items.
+Proof. exact scheduled_members_sequential. Qed.
+Print Assumptions sequential_extraction_ignores_schedule.
+
+(* the order in which (consistent) entries are written does not matter for the resulting tree: two runs over
+   permuted entry lists that both succeed end in the same state (finer than member granularity) *)
+Theorem extraction_order_irrelevant : forall base es es' s s1 ev1 s2 ev2,
+    (forall r e1 e2, In (r, e1) es -> In (r, e2) es -> e1 = e2) -> Permutation es es' ->
+    run (flat_map (ops_of_entry base) es) s = Some (s1, ev1) ->
+    run (flat_map (ops_of_entry base) es') s = Some (s2, ev2) ->
+    forall x, lookup s1 x = lookup s2 x.
+Proof. exact entries_order_irrelevant. Qed.
+Print Assumptions extraction_order_irrelevant.
+
+(* ---------------------------------------------------------------------- *)
+(* the assumption on the interrupted calls, and the end marker             *)
+(* ---------------------------------------------------------------------- *)
+(* attempts_ok is weaker than "every call of the history sees an honest directory listing" *)
+Theorem honest_listings_suffice : forall c h s, attempts_honest c h s -> attempts_ok c h s.
+Proof. exact honest_attempts_ok. Qed.
+Print Assumptions honest_listings_suffice.
+
+(* a call that found an interrupted copy and is killed before it gets to the end marker leaves dst with its start
+   marker and without end marker WHATEVER its directory scan returned (below dst) *)
+Theorem killed_before_end_marker_needs_no_honest_listing : forall c order sched s k t,
+    src_ok c = true ->
+    lookup s (dst c) = Some Dir -> (exists a, lookup s (smark c) = Some (File a)) -> lookup s (emark c) = None ->
+    tmp_small c s -> order_in_dst c order ->
+    k <= List.length (wipe_ops true c order ++ common_ops c sched) - 2 ->
+    let s' := crash_state_t (wipe_ops true c order ++ common_ops c sched) k t s in
+    lookup s' (dst c) = Some Dir /\ (exists a, lookup s' (smark c) = Some (File a)) /\ lookup s' (emark c) = None.
+Proof. exact wipe_killed_early_l. Qed.
+Print Assumptions killed_before_end_marker_needs_no_honest_listing.
+
+(* killed while the end marker is being written (or anywhere else; between two operations or, a_torn = Some n, inside
+   a write after n bytes): if the end marker exists afterwards -- even empty or with a part of its text -- the copy
+   is complete *)
+Theorem end_marker_after_kill_means_complete : forall c s a, src_ok c = true -> auto_state c s ->
+    order_in_dst c (a_order a) -> (seals c s a -> order_covers c s (a_order a)) ->
+    lookup (invoke_crashed true true c s a) (emark c) <> None ->
+    complete_copy c (invoke_crashed true true c s a).
+Proof. exact end_marker_after_kill_l. Qed.
+Print Assumptions end_marker_after_kill_means_complete.
+
+(* ---------------------------------------------------------------------- *)
+(* OUTSIDE THE PROPERTY: two copiers working on the same destination at once *)
+(* ---------------------------------------------------------------------- *)
+(* the model does NOT make the property true for concurrent copiers: A has copied a.txt when B starts with an honest
+   listing, B takes A's work for an interrupted copy and deletes a.txt, A carries on and returns was_copied = true
+   with the end marker in place and a.txt missing *)
+Theorem concurrent_copiers_are_not_covered : exists opsA rA opsB rB s1 e1 s2 e2 s3 e3,
+    plan w_cfg [] [] w_s0 = ORun opsA rA /\
+    run (firstn 10 opsA) w_s0 = Some (s1, e1) /\
+    order_in_dst w_cfg cc_orderB /\ order_covers w_cfg s1 cc_orderB /\
+    plan w_cfg cc_orderB [] s1 = ORun opsB rB /\
+    run (firstn 1 opsB) s1 = Some (s2, e2) /\
+    run (skipn 10 opsA) s2 = Some (s3, e3) /\
+    was_copied rA = true /\ lookup s3 (emark w_cfg) = Some (File end_text) /\ ~ complete_copy w_cfg s3.
+Proof. exact concurrent_copiers_l. Qed.
+Print Assumptions concurrent_copiers_are_not_covered.
+
 (* ---------------------------------------------------------------------- *)
 (* THE CODE BEFORE THE REPAIRS (plan_gen false false): crash_safe is false *)
 (* ---------------------------------------------------------------------- *)
 (* window (i): killed between dst_path.mkdir(parents=True) and the creation of the start marker *)
 Theorem crash_safe_prefix_refuted_mkdir_window : exists s' r evs,
     honest false false w_cfg w1_history w_s0 /\
-    history_run false false w_cfg w1_history [] w_s0 = Some (s', r, evs) /\
+    history_run false false w_cfg w1_history [] [] w_s0 = Some (s', r, evs) /\
     r = nothing_done /\ ~ complete_copy w_cfg s'.
 Proof. exact w1_refutes. Qed.
 Print Assumptions crash_safe_prefix_refuted_mkdir_window.
@@ -117,7 +212,7 @@ Print Assumptions crash_safe_prefix_refuted_mkdir_window.
 Theorem crash_safe_prefix_refuted_rmtree_window : exists s' r evs,
     honest false false w_cfg w2_history w_s0 /\
     order_covers w_cfg (after_crashes false false w_cfg w2_history w_s0) [w_dst ++ ["a.txt"%string]] /\
-    history_run false false w_cfg w2_history [w_dst ++ ["a.txt"%string]] w_s0 = Some (s', r, evs) /\
+    history_run false false w_cfg w2_history [w_dst ++ ["a.txt"%string]] [] w_s0 = Some (s', r, evs) /\
     r = nothing_done /\ ~ complete_copy w_cfg s'.
 Proof. exact (w2_refutes_gen false w2_history (or_introl (conj eq_refl eq_refl))). Qed.
 Print Assumptions crash_safe_prefix_refuted_rmtree_window.
@@ -126,14 +221,14 @@ Print Assumptions crash_safe_prefix_refuted_rmtree_window.
 Theorem atomic_creation_alone_is_not_enough : exists s' r evs,
     honest true false w_cfg w2_history_atomic w_s0 /\
     order_covers w_cfg (after_crashes true false w_cfg w2_history_atomic w_s0) [w_dst ++ ["a.txt"%string]] /\
-    history_run true false w_cfg w2_history_atomic [w_dst ++ ["a.txt"%string]] w_s0 = Some (s', r, evs) /\
+    history_run true false w_cfg w2_history_atomic [w_dst ++ ["a.txt"%string]] [] w_s0 = Some (s', r, evs) /\
     r = nothing_done /\ ~ complete_copy w_cfg s'.
 Proof. exact (w2_refutes_gen true w2_history_atomic (or_intror (conj eq_refl eq_refl))). Qed.
 Print Assumptions atomic_creation_alone_is_not_enough.
 
 Theorem keeping_the_marker_alone_is_not_enough : exists s' r evs,
     honest false true w_cfg w1_history w_s0 /\
-    history_run false true w_cfg w1_history [] w_s0 = Some (s', r, evs) /\
+    history_run false true w_cfg w1_history [] [] w_s0 = Some (s', r, evs) /\
     r = nothing_done /\ ~ complete_copy w_cfg s'.
 Proof. exact w1_refutes_wipe_fix_only. Qed.
 Print Assumptions keeping_the_marker_alone_is_not_enough.
@@ -146,16 +241,37 @@ Print Assumptions keeping_the_marker_alone_is_not_enough.
 Example premises_satisfiable_fresh :
     src_ok w_cfg = true /\ fresh w_cfg w_s0 /\ attempts_ok w_cfg nv_history w_s0 /\
     order_in_dst w_cfg nv_order /\ order_covers w_cfg (after_crashes true true w_cfg nv_history w_s0) nv_order /\
-    exists s' evs, history_run true true w_cfg nv_history nv_order w_s0 = Some (s', res_wipe w_cfg, evs).
+    exists s' evs, history_run true true w_cfg nv_history nv_order [] w_s0 = Some (s', res_wipe w_cfg, evs).
 Proof. exact nv_premises. Qed.
 
 Example premises_satisfiable_manual :
     manual w_cfg nv_manual_s0 /\
-    history_run true true w_cfg nv_history nv_order nv_manual_s0 = Some (nv_manual_s0, nothing_done, []).
+    history_run true true w_cfg nv_history nv_order [] nv_manual_s0 = Some (nv_manual_s0, nothing_done, []).
 Proof. exact nv_manual. Qed.
+
+(* a folder of three class-wise zips extracted by two workers under a schedule that differs from the sequential
+   order: the premises hold, the call returns, the copy is complete *)
+Example premises_satisfiable_parallel :
+    src_ok par_cfg = true /\ fresh par_cfg w_s0 /\
+    unzip_jobs (c_workers par_cfg) (zip_items [("n1.zip", TFile []); ("n0.zip", TFile []); ("README", TFile [82%Z]); ("n2.zip", TFile [])]%string)
+      = [["n1.zip"]; ["n0.zip"]; ["n2.zip"]]%string /\
+    copy_entries par_cfg par_sched <> src_entries par_cfg /\
+    exists s' evs, invoke true true par_cfg [] par_sched w_s0 = Some (s', res_create par_cfg, evs)
+                   /\ complete_copyb par_cfg s' = true.
+Proof. exact par_witness. Qed.
+
+(* a call killed inside the write of the end marker (5 bytes are out): the end marker is there, the copy is complete,
+   the next call does nothing *)
+Example torn_end_marker_is_complete :
+    attempts_ok w_cfg torn_history w_s0 /\
+    lookup (after_crashes true true w_cfg torn_history w_s0) (emark w_cfg) = Some (File (firstn 5 end_text)) /\
+    complete_copyb w_cfg (after_crashes true true w_cfg torn_history w_s0) = true /\
+    history_run true true w_cfg torn_history [] [] w_s0
+      = Some (after_crashes true true w_cfg torn_history w_s0, nothing_done, []).
+Proof. exact torn_end_marker_witness. Qed.
 
 (* the two refuting histories are harmless for the repaired code *)
 Example refuting_histories_are_handled_now : forall h, h = w1_history \/ h = w2_history_atomic ->
-    exists s' r evs, history_run true true w_cfg h [w_dst ++ [sname]] w_s0 = Some (s', r, evs)
+    exists s' r evs, history_run true true w_cfg h [w_dst ++ [sname]] [] w_s0 = Some (s', r, evs)
                      /\ complete_copyb w_cfg s' = true /\ was_copied r = true.
 Proof. exact w_repaired_ok. Qed.
